@@ -20,12 +20,12 @@ Ltac dcut s :=
   match goal with
   | |- context [cut (stage_full s ?u ?c ?d ?ps)] =>
     let l := fresh "l" in
-    let s' := fresh "s'" in
-    let i := fresh "i" in
+    let h := fresh "h" in
     let E := fresh "E" in
-    destruct (cut (stage_full s u c d ps)) as [l [[s' i]|]] eqn:E;
+    destruct (cut (stage_full s u c d ps)) as [l [h|]] eqn:E;
     [ let H := fresh "H" in
-      assert (H : s' = s) by (eapply cut_stage_site; rewrite E; reflexivity); subst s'
+      assert (H : x_site h = s) by (eapply cut_stage_site; rewrite E; reflexivity);
+      unfold is_early; cbn [fst snd out_of]; rewrite ?H
     | ];
     cbn [fst snd out_of is_early]
   end.
@@ -35,7 +35,7 @@ Ltac fin := cbn [fst snd out_of is_early app]; rewrite ?app_nil_r; repeat rewrit
 (* the reply part *)
 Definition reply_decl (ps : list plugin) (v : inv) : list entry * result :=
   let c := cut (concat (skipn 2 (firstn (reach v) (msg_stages ps (i_body v))))) in
-  (fst c, match snd c with Some (s, i) => RHookExc s i | None => final ps v end).
+  (fst c, match snd c with Some h => raised h | None => final ps v end).
 
 Lemma process_reply_eq ps v :
   no_reply v = false -> process_reply ps v = reply_decl ps v.
@@ -101,16 +101,32 @@ Proof.
            end; auto.
 Qed.
 
-Lemma reply_not_early ps b n s i :
-  snd (cut (concat (skipn 2 (firstn n (msg_stages ps b))))) = Some (s, i) ->
-  is_early (Some (s, i)) = false.
+Lemma reply_not_early ps b n h :
+  snd (cut (concat (skipn 2 (firstn n (msg_stages ps b))))) = Some h ->
+  is_early (Some h) = false.
 Proof.
   intro H. apply cut_sites in H as (x & Hx & H1 & _). apply reply_sites in Hx.
-  rewrite H1 in Hx. destruct Hx as [->|[->| ->]]; reflexivity.
+  unfold is_early. rewrite <- H1. destruct Hx as [->|[->| ->]]; reflexivity.
 Qed.
 
 Lemma reach_no_reply v : no_reply v = true -> reach v = 2.
 Proof. unfold reach. intros ->. reflexivity. Qed.
+
+Lemma final_not_hook_exc ps v : is_hook_exc (final ps v) = false.
+Proof.
+  unfold final.
+  destruct (N.eqb (i_status v) 202 || N.eqb (i_status v) 204); [reflexivity|].
+  destruct (N.eqb (i_status v) 200 || N.eqb (i_status v) 500).
+  - destruct (i_body v), (N.eqb (i_status v) 200), (i_retxml v), (i_faults v); reflexivity.
+  - destruct (i_faults v); reflexivity.
+Qed.
+
+(* the service call's WebFault handler leaves everything alone that is no hook exception *)
+Lemma proxy_id v r : is_hook_exc r = false -> proxy v r = r.
+Proof. destruct r; cbn; try reflexivity; discriminate. Qed.
+
+Lemma proxy_final ps v : proxy v (final ps v) = final ps v.
+Proof. apply proxy_id, final_not_hook_exc. Qed.
 
 Lemma invoke_eq ps v : invoke ps v = invoke_decl ps v.
 Proof.
@@ -131,16 +147,16 @@ Proof.
     + reflexivity.
   - rewrite (process_reply_eq ps v NR). unfold reply_decl.
     set (c := cut (concat (skipn 2 (firstn (reach v) (msg_stages ps (i_body v)))))).
-    assert (forall s i, snd c = Some (s, i) -> is_early (Some (s, i)) = false) as NE.
-    { intros s i H. eapply reply_not_early. exact H. }
+    assert (forall h, snd c = Some h -> is_early (Some h) = false) as NE.
+    { intros h H. eapply reply_not_early. exact H. }
     unfold no_reply in NR.
-    destruct (snd c) as [[s i]|] eqn:Ec.
-    + rewrite (NE s i eq_refl).
+    destruct (snd c) as [h|] eqn:Ec.
+    + rewrite (NE h eq_refl).
       destruct (i_via v) as [|[|]]; try discriminate NR.
       * destruct (i_crash v); [discriminate NR|]. reflexivity.
       * reflexivity.
     + destruct (i_via v) as [|[|]]; try discriminate NR.
-      * destruct (i_crash v); [discriminate NR|]. reflexivity.
+      * destruct (i_crash v); [discriminate NR|]. rewrite proxy_final. reflexivity.
       * reflexivity.
 Qed.
 
@@ -169,15 +185,6 @@ Proof.
   split_inv v; cbn; auto 10.
 Qed.
 
-Lemma final_not_hook_exc ps v : is_hook_exc (final ps v) = false.
-Proof.
-  unfold final.
-  destruct (N.eqb (i_status v) 202 || N.eqb (i_status v) 204); [reflexivity|].
-  destruct (N.eqb (i_status v) 200 || N.eqb (i_status v) 500).
-  - destruct (i_body v), (N.eqb (i_status v) 200), (i_retxml v), (i_faults v); reflexivity.
-  - destruct (i_faults v); reflexivity.
-Qed.
-
 Lemma final_ok ps v : reply_result_ok ps v (reach v) (final ps v) = true.
 Proof.
   unfold reply_result_ok. rewrite final_not_hook_exc. cbn [negb andb].
@@ -192,19 +199,32 @@ Proof.
   intros V C. unfold reply_result_ok, no_reply. rewrite V, C. reflexivity.
 Qed.
 
+(* whatever the class: raised as it is, or, through the service call, as the WebFault
+   handler leaves it *)
+Lemma raised_reaches call v h : exc_reaches call v h (raised h) = true.
+Proof. unfold exc_reaches, raised. rewrite result_eqb_refl. reflexivity. Qed.
+
+Lemma proxy_reaches v h : exc_reaches true v h (proxy v (raised h)) = true.
+Proof.
+  unfold exc_reaches, raised, proxy.
+  destruct (is_webfault (x_cls h) && negb (i_faults v)) eqn:E.
+  - apply andb_true_iff in E as [-> ->]. rewrite result_eqb_refl. cbn. rewrite ?orb_true_r. reflexivity.
+  - rewrite result_eqb_refl. reflexivity.
+Qed.
+
 Lemma spec_inv_n_decl ps v : spec_inv_n ps v (invoke_decl ps v) (reach v) = true.
 Proof.
   unfold spec_inv_n, spec_inv_n_g, invoke_decl.
   set (c := cut (concat (firstn (reach v) (msg_stages ps (i_body v))))).
   destruct c as [elog ex] eqn:Ec. cbn [fst snd negb orb].
-  change (match ex with Some (SM, _) | Some (SS, _) => true | _ => false end) with (is_early ex).
   unfold log_eqb_g.
-  destruct ex as [[s i]|].
-  - destruct (is_early (Some (s, i))) eqn:EE.
-    + cbn [o_log o_sent o_res o_res2]. rewrite log_spec_eqb_refl, !result_eqb_refl.
+  destruct ex as [h|].
+  - destruct (is_early (Some h)) eqn:EE.
+    + cbn [o_log o_sent o_res o_res2]. rewrite log_spec_eqb_refl, proxy_reaches, !result_eqb_refl.
       destruct (i_via v) as [|[|]]; reflexivity.
     + destruct (i_via v) as [|[|]]; cbn [o_log o_sent o_res o_res2];
-        rewrite log_spec_eqb_refl, ?markers_eqb_refl, !result_eqb_refl; reflexivity.
+        rewrite log_spec_eqb_refl, ?markers_eqb_refl, ?proxy_reaches, ?raised_reaches, !result_eqb_refl;
+        reflexivity.
   - cbn [is_early].
     destruct (i_via v) as [|[|]] eqn:V; cbn [o_log o_sent o_res o_res2];
       rewrite log_spec_eqb_refl, ?markers_eqb_refl, ?result_eqb_refl, ?final_ok; try reflexivity.
